@@ -13,6 +13,7 @@ import (
 	"path/filepath"
 	"sort"
 	"strings"
+	"time"
 )
 
 // Rng is splitmix64; every random choice of a run derives from one state.
@@ -247,4 +248,39 @@ var Registry = map[string]PropRunner{}
 
 func Register(id string, run func(*Ctx), replay func(*Ctx, map[string]interface{})) {
 	Registry[id] = PropRunner{run, replay}
+}
+
+// Remarshal converts a generic JSON value into a typed one.
+func Remarshal(in interface{}, out interface{}) error {
+	b, err := json.Marshal(in)
+	if err != nil {
+		return err
+	}
+	return json.Unmarshal(b, out)
+}
+
+// Guard runs f (a call into the implementation) under a deadline. A panic is
+// recorded as <prefix>/panic. If f does not return in time the failure
+// <prefix>/hang is recorded, the report is written and the process exits with
+// status 3: a spinning goroutine cannot be stopped, and letting it run would
+// exhaust memory. Returns false if f panicked.
+func (c *Ctx) Guard(prefix string, kase interface{}, seconds int, f func()) bool {
+	done := make(chan string, 1)
+	go func() { done <- Safe(f) }()
+	select {
+	case msg := <-done:
+		if msg != "" {
+			c.Check(prefix+"/panic", false, kase, func() string { return msg })
+			return false
+		}
+		return true
+	case <-time.After(time.Duration(seconds) * time.Second):
+		c.Check(prefix+"/hang", false, kase, func() string {
+			return fmt.Sprintf("implementation call did not return within %d s", seconds)
+		})
+		c.Note("aborted after a hang; remaining cases not run")
+		c.Finish()
+		os.Exit(3)
+	}
+	return false
 }
